@@ -24,6 +24,7 @@ class Fmt:
     name = ext = None
     text_fix_from = 2          # t_{n+1} == t_n demanded for n >= this
     ctc_names = False          # constraint names are carried by the format
+    ctc_exact = False          # the format stores the constraint tree itself: it must come back node for node
     fields = ()                # feature fields carried besides name/tree
     attrs = None               # None | 'value' | 'afm'
 
@@ -138,6 +139,7 @@ class JSONF(Fmt):
     fields = ("abstract",)
     attrs = "value"
     ctc_names = True
+    ctc_exact = True           # C05: "the same named constraints" (JSON stores the expression tree)
 
     def extra(self, path, model):
         from flamapy.metamodels.fm_metamodel.transformations import JSONReader
@@ -282,6 +284,8 @@ def judge(fmt, spec, cycles, workdir):
                     f"{c0['ast']} -> {c1['ast']}")
         if fmt.ctc_names and c0["name"] != c1["name"]:
             return ("same-constraints", "ctc-name", f"{c0['name']!r} -> {c1['name']!r}")
+        if fmt.ctc_exact and c0["ast"] != c1["ast"]:
+            return ("same-constraints", "ctc-tree-differs", f"{c0['ast']} -> {c1['ast']}")
     for n in range(1, len(res["obs"])):
         if res["obs"][n] != res["obs"][n - 1]:
             return ("further-cycles-change-nothing", "model-drift",
